@@ -15,12 +15,14 @@ TIMINGS = ["same_before", "same_after", "earlier_eval", "never"]
 PATH = "/c9/prod"
 
 
-def build(pkg, placement, producer, timing, two_modules=False, load_form="assign"):
+def build(pkg, placement, producer, timing, two_modules=False, load_form="assign", via_method=None):
     _lf[0] = load_form
+    _vm[0] = via_method
     return _build(pkg, placement, producer, timing, two_modules)
 
 
 _lf = ["assign"]
+_vm = [None]  # None | "producer" | "reader" | "both": that side of the pipeline is reached through a method of a class
 
 
 def _build(pkg, placement, producer, timing, two_modules=False):
@@ -69,6 +71,23 @@ def _build(pkg, placement, producer, timing, two_modules=False):
             return gen.s_keep("/c9/reader", h, [])
         return gen.s_call(h, [])
 
+    if _vm[0] in ("producer", "both"):
+        # the producing statement sits in a function that only a method of a class calls
+        _ps = produce_stmt
+        pw = gen.add_fn(p, m0, "pwrap", const=45)
+        p["fns"][pw]["stmts"] = [_ps()]
+        kp = gen.add_cls(p, m0, "KProd", const=46, calls=pw)
+
+        def produce_stmt():
+            return gen.s_method(kp, "1")
+    if _vm[0] in ("reader", "both"):
+        _rs = read_stmt
+        rw = gen.add_fn(p, m1, "rwrap", const=47)
+        p["fns"][rw]["stmts"] = [_rs()]
+        kr = gen.add_cls(p, m1, "KRead", const=48, calls=rw)
+
+        def read_stmt():
+            return gen.s_method(kr, "2")
     rmain = gen.add_fn(p, m1, "rmain", const=1)
     f = p["fns"][rmain]
     f["stmts"] = [gen.s_call(unrelated, [])]
@@ -102,9 +121,10 @@ def case_job(arg):
     placement, producer, timing, edit, store, populated, two_mod, idx = arg[:8]
     load_form = arg[8] if len(arg) > 8 else "assign"
     producer_entry = arg[9] if len(arg) > 9 else "eval"
+    via_method = arg[10] if len(arg) > 10 else None
     rep = core.Report("C09")
     rep.evaluations = 1
-    p0 = build("c9_%d" % idx, placement, producer, timing, two_mod, load_form)
+    p0 = build("c9_%d" % idx, placement, producer, timing, two_mod, load_form, via_method)
     p1, d = edits_of(p0, edit)
     ids = p0["_ids"]
     R, P = ids["rmain"], ids["pmain"]
@@ -136,7 +156,7 @@ def case_job(arg):
             st["new_process"] = i == 0
             if i > 0 and "how" not in st:
                 st["how"] = "reload"
-    case = progs._case("load:%s/%s/%s/%s/%s/%s" % (placement, producer, timing, edit, load_form, producer_entry), [p0, p1], {(0, 1): d}, hist, store)
+    case = progs._case("load:%s/%s/%s/%s/%s/%s/%s" % (placement, producer, timing, edit, load_form, producer_entry, via_method or "-"), [p0, p1], {(0, 1): d}, hist, store)
     obs = e1.run_case(case)
     if obs["failed"]:
         rep.inconclusive.append(obs["failed"])
@@ -145,7 +165,7 @@ def case_job(arg):
         if "setup_error" in o["impl"] or "setup_error" in o["ref"]:
             rep.inconclusive.append("setup error: %s" % (o["impl"].get("setup_error") or o["ref"].get("setup_error"))[-300:])
             return rep
-    feats = {"placement": placement, "producer": producer, "timing": timing, "edit": edit, "store": store, "load_form": load_form}
+    feats = {"placement": placement, "producer": producer, "timing": timing, "edit": edit, "store": store, "load_form": load_form, "via_method": via_method}
 
     def classify(case_, hi, f):
         return mech_of(feats, f)
@@ -179,7 +199,7 @@ def case_job(arg):
             rep.count("reader_invalidation_checks")
             if "reader" not in obs["steps"][log_idx]["impl"]["log"]:
                 rep.violate("%s: the kept reader was not re-evaluated after %s changed what it serves" % (case["name"], PATH), {"case": case, "step": log_idx}, mechanism="reader-not-invalidated", features=feats)
-    rep.nontriv(("c09", placement, producer, timing, edit, store, populated, two_mod, load_form))
+    rep.nontriv(("c09", placement, producer, timing, edit, store, populated, two_mod, load_form, via_method))
     return rep
 
 
@@ -264,7 +284,7 @@ def other_process_job(arg):
 def run(tier, seed):
     rep = core.Report("C09")
     rep.rule = (
-        "load written as an assignment / positional argument / keyword argument / inside a subscript / inside str.format(), placed at top level of the evaluated function / in a non-kept helper / two helpers down / inside a kept function / in a helper of a kept function x producer (data function, keep call) x "
+        "load written as an assignment / positional argument / keyword argument / inside a subscript / inside str.format(), placed at top level of the evaluated function / in a non-kept helper / two helpers down / inside a kept function / in a helper of a kept function (either side optionally reached through a method of a class) x producer (data function, keep call) x "
         "timing (earlier in the same evaluation, later in the same evaluation [must be rejected], by an earlier evaluation, never) x edits (producer body, producer variable, producer callee, unrelated) x "
         "stores memory/local x fresh/populated x one or two modules; histories with re-evaluation, edit, revert, restart; plus a second process keeping an edited producer between two evaluations of the reader by a long-lived process (stores local, local+cache, DBFS fake). "
         "distinct_nontrivial = distinct combinations fully observed."
@@ -285,6 +305,12 @@ def run(tier, seed):
                             jobs.append((placement, producer, timing, edit, store, populated, idx % 2 == 0, idx, "assign"))
                             if timing == "earlier_eval" and edit != "unrelated":
                                 jobs.append((placement, producer, timing, edit, store, populated, idx % 2 == 0, idx * 10 + 9, "assign", "direct"))
+                            # one or both sides of the pipeline reached through a method of a class
+                            if edit == "prod_const" and (timing != "never") and (tier != "quick" or store == "local"):
+                                for vi, vm in enumerate(("producer", "reader", "both")):
+                                    if tier == "quick" and (idx + vi) % 3 != 0 and not (placement == "top" and timing == "same_before"):
+                                        continue
+                                    jobs.append((placement, producer, timing, edit, store, populated, False, idx * 10 + 5 + vi, "assign", "eval", vm))
                             # the other syntactic positions of the load expression
                             for fi, form in enumerate(gen.LOAD_FORMS[1:]):
                                 if edit == "prod_const" and store == "local" and timing in ("same_before", "earlier_eval", "same_after") and (tier != "quick" or (idx + fi) % 2 == 0 or placement == "kept"):
@@ -322,7 +348,9 @@ def replay(payload):
     placement, producer, timing, edit = name.split("/")[:4]
     load_form = (name.split("/") + ["assign"])[4]
     producer_entry = (name.split("/") + ["assign", "eval"])[5]
+    via_method = (name.split("/") + ["assign", "eval", "-"])[6]
+    via_method = None if via_method == "-" else via_method
     idx = int(c["versions"][0]["pkg"].split("_")[1])
     populated = any(st.get("entry") for st in c["history"][:1]) and timing == "same_after"
-    rep.merge(case_job((placement, producer, timing, edit, c["store"], populated, len(c["versions"][0]["modules"]) == 2, idx, load_form, producer_entry)))
+    rep.merge(case_job((placement, producer, timing, edit, c["store"], populated, len(c["versions"][0]["modules"]) == 2, idx, load_form, producer_entry, via_method)))
     return rep
